@@ -1321,6 +1321,32 @@ def c09_streams(ctx):
     return gs
 
 
+HYPHEN_CLASSES = [
+    ("[a--[b]]", ("cls", False, [("c", "a"), ("c", "-")], ("cls", False, [("c", "b")], None))),
+    ("[--[a]]", ("cls", False, [("c", "-")], ("cls", False, [("c", "a")], None))),
+    ("[a-z--[m]]", ("cls", False, [("r", "a", "z"), ("c", "-")], ("cls", False, [("c", "m")], None))),
+    ("[^a--[b]]", ("cls", True, [("c", "a"), ("c", "-")], ("cls", False, [("c", "b")], None))),
+    ("[a-]", ("cls", False, [("c", "a"), ("c", "-")], None)),
+    ("[-a]", ("cls", False, [("c", "-"), ("c", "a")], None)),
+    ("[a-c-]", ("cls", False, [("r", "a", "c"), ("c", "-")], None)),
+    ("[\\--a]", ("cls", False, [("r", "-", "a")], None)),
+    ("[a\\-c]", ("cls", False, [("c", "a"), ("c", "-"), ("c", "c")], None)),
+    ("[\\^a]", ("cls", False, [("c", "^"), ("c", "a")], None)),
+    ("[a^]", ("cls", False, [("c", "a"), ("c", "^")], None)),
+    ("[\\[\\]]", ("cls", False, [("c", "["), ("c", "]")], None)),
+]
+
+
+def c09_hyphen_groups(ctx):
+    gs = []
+    chars = sorted(set("ab-+,mz^[]c\\,.`") | {chr(ord(c) + d) for c in "a-+z" for d in (-1, 1)})
+    for txt, cls in HYPHEN_CLASSES:
+        for f in ("", "i"):
+            cs = [Case("^" + txt + "$", f, "is_match", ch) for ch in chars]
+            gs.append(Group(cs, {"features": {"negated_class"} if cls[1] else set(), "cls": cls, "flags": f, "chars": chars, "text": txt}))
+    return gs + c09_hyphen_groups(ctx)
+
+
 def c09_oracle(ctx, g):
     out = []
     cls, f = g.meta["cls"], g.meta["flags"]
